@@ -1098,6 +1098,10 @@ var c10Accepted = []string{
 	`"2020-01-01" // {type: "date"}`, `{"a\"b": 1, "c\\d": [2]}`, `{"key": null // {nullable: true}` + "\n}",
 	`{} // {type: "any"}`, `[] // {type: "any"}`, `"" // {type: "any"}`, "{\n  \"id\": 1,\n  \"payload\": {} // {type: \"any\"}\n}", `1 // {or: ["any", {type: "integer"}]}`, `// {type: "any"}`,
 	`[ // {maxItems: 3}` + "\n 1 // {min: 0} - note\n]", `{"a":1}    `, "\n\n{\"a\":[true,false,null]}\n",
+	// texts of one length that differ in one byte inside an or rule-set (their twins of the same length are among
+	// the failing texts): whatever is remembered per file name and size shows as a result that depends on the order
+	`5 // {or: [{type: "integer", min: 1}, {type: "string"}]}`, `5 // {or: [{type: "integer", max: 9}, {type: "string"}]}`,
+	"{\n \"k\": 5 // {or: [{type: \"integer\", min: 1}, {type: \"boolean\"}]}\n}", `"ab" // {or: [{type: "string", maxLength: 2}, {type: "integer"}]}`,
 }
 
 // schemas the scanner rejects
@@ -1116,6 +1120,8 @@ var c10LoaderFailing = []string{
 	`1 // {const: true, min: 1}`, `1.5 // {type: "integer"}`, `{"a": 1 // {nullable: 5}` + "\n}", "{\n \"a\": [ // {maxItems: \"x\"}\n 1\n ]\n}",
 	"{\n \"deep\": {\n  \"deeper\": {\n   \"k\": 1, \"k\": 2\n  }\n }\n}", `{"a": {"b": {"c": 1 /* {min: [} */}}}`, `1 // {or: [{type: "integer", foo: 1}]}`,
 	`1 // {enum: []}`, `[] // {type: "object"}`, `1 // {serializeFormat: "x"}`, `{"a":1} // {additionalProperties: "nope"}`,
+	`5 // {or: [{type: "integer", min: 9}, {type: "string"}]}`, `5 // {or: [{type: "integer", max: 1}, {type: "string"}]}`,
+	"{\n \"k\": 5 // {or: [{type: \"integer\", min: 9}, {type: \"boolean\"}]}\n}", `"ab" // {or: [{type: "string", maxLength: 1}, {type: "integer"}]}`,
 }
 
 var c10Enums = []string{
